@@ -840,3 +840,55 @@ def canon_names(text, mapping):
     for a, b in mapping.items():
         text = _re_mod.sub(r"(?<![A-Za-z0-9_.#])%s(?![A-Za-z0-9_])" % _re_mod.escape(a), b, text)
     return text
+
+
+def alpha(text):
+    """Canonical form of rendered code up to consistent renaming of local names (same notion of 'local name' as
+    `wild`): the k-th distinct local name becomes `$k`."""
+    out = []
+    seen = {}
+    i = 0
+    n = len(text)
+    while i < n:
+        c = text[i]
+        if c == '"':
+            j = i + 1
+            while j < n and text[j] != '"':
+                j += 2 if text[j] == "\\" else 1
+            out.append(text[i : j + 1])
+            i = j + 1
+            continue
+        if c.isalpha() or c == "_":
+            j = i
+            while j < n and (text[j].isalnum() or text[j] == "_"):
+                j += 1
+            word = text[i:j]
+            prev = text[i - 1] if i else ""
+            prev2 = text[i - 2 : i]
+            nxt = text[j] if j < n else ""
+            nxt2 = text[j : j + 2]
+            fixed = (
+                word in _KW
+                or not (word[0].islower() or word[0] == "_")
+                or prev == "."
+                or prev == "'"
+                or prev2 == "::"
+                or nxt2 == "::"
+                or nxt == "!"
+                or nxt == "("
+                or (nxt == ":" and nxt2 != "::")
+                or prev.isdigit()
+                or prev == "$"
+                or prev == "#"
+            )
+            if fixed:
+                out.append(word)
+            else:
+                if word not in seen:
+                    seen[word] = f"${len(seen)}"
+                out.append(seen[word])
+            i = j
+            continue
+        out.append(c)
+        i += 1
+    return "".join(out)
